@@ -266,7 +266,8 @@ def load_lines(lines: Iterable[str]) -> Tuple[
         system.evaluator = votelib.evaluate.FixedSeatCount(
             system.evaluator, blt_n_seats
         )
-        if not candidates and blt_candidates:
+        if blt_candidates:
+            # the ballots refer to the candidates of the BLT content
             candidates = blt_candidates
     else:
         loader = _load_ordered_votes if is_ordered else _load_unordered_votes
